@@ -29,12 +29,23 @@ def flag_vectors():
     return [json.loads(l) for l in open(path)]
 
 
+LONG = {"n": "nasm", "t": "strict", "s": "smart", "p": "print", "P": "printfile", "c": "chunk", "b": "breaks", "r": "return", "o": "object"}
+
+
 def argv_of(f, paths):
     a = []
+    spell = f.get("spell", "short")
+
+    def flag(ch, val=None):
+        if spell == "short":
+            return ["-" + ch] + ([val] if val is not None else [])
+        if val is None:
+            return ["--" + LONG[ch]]
+        return ["--%s=%s" % (LONG[ch], val)] if spell == "long=" else ["--" + LONG[ch], val]
     if f["short"]:
-        a.append("-" + f["short"])
+        a += flag(f["short"])
     if f.get("short2"):
-        a.append("-" + f["short2"])
+        a += flag(f["short2"])
     if f["mov"]:
         a.append("--%s-mov-imm" % f["mov"])
     if f["sib"]:
@@ -44,19 +55,19 @@ def argv_of(f, paths):
     if f["nobase"]:
         a.append("--%s-sib-no-base" % f["nobase"])
     if f["p"]:
-        a.append("-p")
+        a += flag("p")
     if f["c"]:
-        a += ["-c", str(f["c"])]
+        a += flag("c", str(f["c"]))
     if f["b"]:
-        a += ["-b", str(f["b"])]
+        a += flag("b", str(f["b"]))
     if f["r"]:
-        a.append("-r")
+        a += flag("r")
     if f["out"] == "P":
-        a += ["-P", paths["P"]]
+        a += flag("P", paths["P"])
     elif f["out"] == "o":
-        a += ["-o", paths["o"]]
+        a += flag("o", paths["o"])
     elif f["out"] == "Pbad":
-        a += ["-P", paths["bad"]]
+        a += flag("P", paths["bad"])
     return a
 
 
